@@ -825,6 +825,8 @@ class Interp:
             if r is None:
                 raise Unsupported(f"super().{attr} unresolved")
             return ("method", r[0], r[1])
+        if k == "iinfo" and attr in ("bits", "min", "max"):
+            return K(_INT_LIMITS[base[1]][("bits", "min", "max").index(attr)])
         if attr == "shape":
             return ("shape", base)
         if attr == "at":
@@ -1251,6 +1253,8 @@ class Interp:
             in_problem = self.cls is not None and any(k.name == "Problem" for k in self.ct.mro(self.cls))
             if static_int and in_problem:
                 return recv
+            if cast_keeps_index(recv, d):
+                return recv  # an action index cast to a dtype that, on every branch of its choice, holds 0 .. n_actions - 1
             return ("app", "astype", (recv, d))
         if name in ("copy", "squeeze", "flatten", "ravel", "block_until_ready", "item", "tolist"):
             return recv
@@ -1946,6 +1950,46 @@ def _p_tile(I, args, kw, node):
     return ("app", "np.tile", (x, reps))
 
 
+_INT_LIMITS = {"int8": (8, -2**7, 2**7 - 1), "int16": (16, -2**15, 2**15 - 1), "int32": (32, -2**31, 2**31 - 1), "int64": (64, -2**63, 2**63 - 1),
+               "uint8": (8, 0, 2**8 - 1), "uint16": (16, 0, 2**16 - 1), "uint32": (32, 0, 2**32 - 1), "uint64": (64, 0, 2**64 - 1)}
+
+
+def _p_iinfo(I, args, kw, node):
+    d = args[0] if args else NONE
+    name = d[1].split(".")[-1] if d[0] == "mod" else None
+    if name in _INT_LIMITS:
+        return ("iinfo", name)
+    return ("app", "?np.iinfo", tuple(args))
+
+
+def cast_keeps_index(recv, d) -> bool:
+    """Is `recv.astype(d)` value-preserving when recv is an arg-reduction over the ACTION axis (values 0 .. n_actions - 1) and d a dtype chosen by
+    comparisons of problem.n_actions with constants?  True only when every branch's dtype holds every index its path condition allows."""
+    if not (isinstance(recv, tuple) and recv and recv[0] == "red" and recv[1] in ("argmax", "argmin") and recv[3] == "act"):
+        return False
+    N = ("sym", "problem.n_actions")
+
+    def walk(node, ub):
+        if node[0] == "mod":
+            lim = _INT_LIMITS.get(node[1].split(".")[-1])
+            if lim is None:
+                return False
+            if ub is None:
+                return lim[0] >= 32 and lim[1] < 0  # int32 / int64 are what argmax itself returns
+            return ub - 1 <= lim[2]
+        if node[0] == "ite" and node[1][0] == "app" and node[1][1] == "cmpLt" and len(node[1][2]) == 2:
+            a, b = node[1][2]
+            if is_num(a) and b == N and a[1].denominator == 1:      # K < N : then N >= K + 1, else N <= K
+                k = int(a[1])
+                return walk(node[2], ub) and walk(node[3], k if ub is None else min(ub, k))
+            if a == N and is_num(b) and b[1].denominator == 1:      # N < K : then N <= K - 1, else N >= K
+                k = int(b[1]) - 1
+                return walk(node[2], k if ub is None else min(ub, k)) and walk(node[3], ub)
+        return False
+
+    return walk(d, None)
+
+
 def _p_flip(I, args, kw, node):
     x = args[0]
     axis = kw.get("axis", args[1] if len(args) > 1 else NONE)
@@ -2082,6 +2126,7 @@ PRIMS = {
     "itertools.product": _p_product,
     "np.select": _p_select,
     "np.flip": _p_flip,
+    "np.iinfo": _p_iinfo,
     "np.pad": _p_pad,
     "functools.reduce": _p_functools_reduce,
     "np.atleast_1d": _p_atleast_1d,
